@@ -5,6 +5,15 @@ from __future__ import annotations
 from dataclasses import dataclass, field
 
 
+class NotShown(Exception):
+    """An equality the rule must establish cannot be established because the code leaves the interpreted sub-language:
+    an unproved obligation (a violation), not an analysis failure — the documented recurrence has no such construct."""
+
+    def __init__(self, rule: str, key: str, where: str, detail: str) -> None:
+        super().__init__(detail)
+        self.rule, self.key, self.where, self.detail = rule, key, where, detail
+
+
 @dataclass
 class Obligation:
     rule: str  # e.g. "C01.1"
@@ -32,6 +41,8 @@ class Report:
 
         try:
             fn(*args, **kw)
+        except NotShown as e:
+            self.ob(e.rule, e.key, False, e.where, e.detail)
         except AnalysisError as e:
             self.errors.append(f"{what}: {e}")
 
